@@ -226,6 +226,15 @@ def pReadEv (s : String) : Option ReadEv :=
   | 'x' :: rest => (pErrKind (String.ofList rest)).map .err
   | _ => none
 
+/-- a list of read events; `E` – the peer has closed and stays closed – stands for as many
+    end-of-stream reports as any history of the harness reads (each read of it is one `.eof`) -/
+def pReadEvs (s : String) : Option (List ReadEv) :=
+  if s = "-" ∨ s = "" then some [] else
+  (s.splitOn ",").foldr (fun t acc =>
+    match acc with
+    | none => none
+    | some l => if t = "E" then some (List.replicate 64 .eof ++ l) else (pReadEv t).map (· :: l)) (some [])
+
 def pWriteEv (s : String) : Option WriteEv :=
   match s.toList with
   | ['z'] => some .zero
